@@ -267,6 +267,21 @@ Fixpoint reg_find (reg : registry) (name : bytes) (h : Z) : option desc :=
 
 Definition reg_add (HASH : desc -> Z) (reg : registry) (d : desc) : registry := (d_name d, HASH d, d) :: reg.
 
+(* old, unversioned identifiers are the bare type name: packer.descriptors[desc.name], latest wins *)
+Fixpoint reg_find_name (reg : registry) (name : bytes) : option desc :=
+  match reg with
+  | [] => None
+  | (n, _, d) :: t => if bytes_eqb n name then Some d else reg_find_name t name
+  end.
+
+(* identifier_to_str + descriptors.get *)
+Definition lookup_ident (reg : registry) (ident : xv) : option desc :=
+  match ident with
+  | XArr [XStr name; XInt h] | XArr [XBin name; XInt h] => reg_find reg name h
+  | XStr name | XBin name => reg_find_name reg name
+  | _ => None
+  end.
+
 Definition unpack_dt (x : xv) : option dtv :=
   match x with
   | XArr [XInt y; XInt mo; XInt dd; XInt h; XInt mi; XInt s; XInt us] => Some (DtTuple y mo dd h mi s us)
@@ -380,9 +395,9 @@ Fixpoint unpack_f (c : cfg) (depth : nat) (reg : registry) (t : ftype) (x : xv) 
                    | _ => None end
       | TRecord =>
           match x with
-          | XExt sub (XArr [XArr [XStr name; XInt h]; XArr vals]) =>
+          | XExt sub (XArr [ident; XArr vals]) =>
               if negb (Z.eqb sub (SUB_RECORD c)) then None
-              else match reg_find reg name h with
+              else match lookup_ident reg ident with
                    | None => None                                   (* RecordDescriptorNotFound *)
                    | Some d =>
                        match vals with [] => None | _ =>            (* values[-1] on an empty tuple: IndexError *)
@@ -420,8 +435,8 @@ Definition unpack_rec (c : cfg) (depth : nat) (reg : registry) (x : xv) : option
 (* member of a grouped record: [identifier, values], no compatibility trimming *)
 Definition unpack_member (c : cfg) (depth : nat) (reg : registry) (x : xv) : option rec :=
   match x with
-  | XArr [XArr [XStr name; XInt h]; XArr vals] =>
-      match reg_find reg name h with
+  | XArr [ident; XArr vals] =>
+      match lookup_ident reg ident with
       | None => None
       | Some d =>
           match fit false (List.length (field_types d)) vals with
@@ -436,12 +451,18 @@ Definition unpack_member (c : cfg) (depth : nat) (reg : registry) (x : xv) : opt
   | _ => None
   end.
 
+(* to_str: text, or bytes decoded with surrogateescape (same byte string in this model) *)
+Definition xtext (x : xv) : option bytes := match x with XStr s | XBin s => Some s | _ => None end.
+
 Definition unpack_desc (x : xv) : option desc :=
   match x with
-  | XArr [XStr name; XArr fields] =>
-      match all_some (map (fun f => match f with XArr [XStr t; XStr n] => Some (t, n) | _ => None end) fields) with
-      | Some fs => Some (Desc name fs)
-      | None => None
+  | XArr [nm; XArr fields] =>
+      match xtext nm,
+            all_some (map (fun f => match f with
+                                    | XArr [t; n] => match xtext t, xtext n with Some t', Some n' => Some (t', n') | _, _ => None end
+                                    | _ => None end) fields) with
+      | Some name, Some fs => Some (Desc name fs)
+      | _, _ => None
       end
   | _ => None
   end.
